@@ -304,9 +304,12 @@ func (t *Translator) closeCurrentBlockIfNeeded(state *StreamingState, blockType 
 
 // initializeToolBlock creates and sends a new tool_use block start event
 func (t *Translator) initializeToolBlock(id, name string, toolIndex int, state *StreamingState, w http.ResponseWriter, rc *http.ResponseController) error {
-	// close current text block before starting tool block, anthropic requires this
-	if err := t.closeCurrentBlockIfNeeded(state, contentTypeText, w, rc); err != nil {
-		return err
+	// close whichever block is still open (text, or the previous tool call) before starting this one:
+	// anthropic requires every block to be stopped before the next one starts
+	if state.currentBlock != nil {
+		if err := t.closeCurrentBlockIfNeeded(state, state.currentBlock.Type, w, rc); err != nil {
+			return err
+		}
 	}
 
 	state.currentBlock = &ContentBlock{
